@@ -404,7 +404,7 @@ func runCheck(id string, o checkOpts) int {
 		perKey := map[string]int{}
 		for _, c := range cs {
 			e := idx[c.ID]
-			if e.kind == "v" && (e.w.Kind == "sharedwrite" || e.w.Kind == "nondet" || e.w.Kind == "syncwrite") && perKey[raceKey(e.w)] < 2 && len(raceCases) < 48 {
+			if e.kind == "v" && (e.w.Kind == "sharedwrite" || e.w.Kind == "nondet" || e.w.Kind == "syncwrite" || (id == "C19" && e.w.Kind == "violation")) && perKey[raceKey(e.w)] < 2 && len(raceCases) < 48 {
 				perKey[raceKey(e.w)]++
 				raceCases = append(raceCases, c)
 			}
@@ -439,6 +439,15 @@ func runCheck(id string, o checkOpts) int {
 				switch e.w.Kind {
 				case "violation":
 					good = oc.Outcome == "assert"
+					if id == "C19" {
+						// history-dependence witnesses are replayed one per process (state left behind by an
+						// earlier case of the same process would mask them), under the race detector
+						good = oc.Outcome == "assert" || oc.Outcome == "race"
+						if !raced[c.ID] && keyConfirmed[raceKey(e.w)] {
+							good = true
+							e.w.Replay = "not replayed in a process of its own; same harness, ecosystem and message as a confirmed witness"
+						}
+					}
 				case "panic":
 					good = oc.Outcome == "panic"
 				case "sharedwrite", "nondet", "syncwrite":
